@@ -471,9 +471,13 @@ func TestC14_Concurrent(t *testing.T) {
 					}
 					o = op{Kind: "check", Lang: rapid.SampledFrom([]int64{il, int64(implLang[m.Lang]), -1, 10}).Draw(rt, "check-lang"), Text: text(strings.ToValidUTF8(m.Text, "?"))}
 				case 7:
-					o = op{Kind: "encode", Lang: rapid.SampledFrom([]int64{il, il, 10, -1}).Draw(rt, "enc-lang"), Entropy: rapid.SliceOfN(rapid.Byte(), 0, 40).Draw(rt, "entropy"), ExtraCap: rapid.SampledFrom([]int{0, 8}).Draw(rt, "cap")}
+					ent := rapid.SliceOfN(rapid.Byte(), 0, 40).Draw(rt, "entropy")
+					if rapid.Bool().Draw(rt, "valid-size") {
+						ent = gen.Entropy().Draw(rt, "valid-entropy").Bytes
+					}
+					o = op{Kind: "encode", Lang: rapid.SampledFrom([]int64{il, il, 10, -1}).Draw(rt, "enc-lang"), Entropy: ent, ExtraCap: rapid.SampledFrom([]int{0, 8}).Draw(rt, "cap")}
 				case 8:
-					o = op{Kind: "new", Lang: il, N: int64(rapid.SampledFrom([]int{12, 24, 15, 0, 13, -3}).Draw(rt, "n"))}
+					o = op{Kind: "new", Lang: rapid.SampledFrom([]int64{il, il, il, 10, -1, 1 << 20}).Draw(rt, "new-lang"), N: int64(rapid.SampledFrom([]int{12, 24, 15, 0, 13, -3}).Draw(rt, "n"))}
 				default:
 					o = op{Kind: "string", Lang: rapid.SampledFrom([]int64{il, -1, 10, 1 << 20}).Draw(rt, "string-lang")}
 				}
@@ -491,6 +495,15 @@ func TestC14_Concurrent(t *testing.T) {
 			cov.Class("generation-hammer")
 		}
 		c := &concCallCase{Plan: plan{GOMAXPROCS: rapid.SampledFrom([]int{0, 0, 2, 4, 16}).Draw(rt, "gomaxprocs"), Phases: []phase{{Goroutines: gs}}}}
+		if rapid.IntRange(0, 2).Draw(rt, "hostile-env") == 0 {
+			// the process environment is an input too: locale and every variable name that occurs as a
+			// literal in the code under test, set to values a container or CI system really has
+			val := rapid.SampledFrom([]string{"C", "POSIX", "", "fr", "en_US.UTF-8", "/dev/zero", "1", "-1", "\xff\xfe", strings.Repeat("x", 5000)}).Draw(rt, "env-value")
+			for _, name := range append(envNames(), "LANG", "LC_ALL", "LC_CTYPE", "LANGUAGE", "TZ", "HOME", "TMPDIR", "GODEBUG_VERIF") {
+				c.Plan.Env = append(c.Plan.Env, name+"="+val)
+			}
+			cov.Class("hostile-environment")
+		}
 		cov.Eval(1)
 		cov.Class("concurrent-child")
 		cov.ClassN("goroutines", ng)
